@@ -8,6 +8,7 @@
 #[verifier::external_body] pub struct NameKey { _p: u8 }
 pub uninterp spec fn key(n: VariableName) -> NameKey;           // to_lowercase of the right identifier kind
 impl VClone for VariableName { #[verifier::external_body] fn vclone(&self) -> (r: Self) { unimplemented!() } }
+impl VClone for Option<VariableName> { #[verifier::external_body] fn vclone(&self) -> (r: Self) { unimplemented!() } }
 
 //@item src/exec/sym_table.rs | enum | SymTableError
 //@end
